@@ -12,6 +12,7 @@ package main
 
 import (
 	"go/types"
+	"sort"
 	"strings"
 )
 
@@ -58,6 +59,7 @@ func (vc *VC) countedMethods() []string {
 			out = append(out, fi.fc.Name)
 		}
 	}
+	sort.Strings(out)
 	return out
 }
 
